@@ -9,7 +9,7 @@ use super::CheckDef;
 use crate::bfs::Bfs;
 use crate::report::{CheckInfo, Partial, Tier, Violation};
 use crate::sim::{MIN, SEC};
-use crate::srv::{replay_path, Act, Cas, Sig, SrvCfg, SrvState, Tok};
+use crate::srv::{record_path, replay_path, src_addr, Act, Cas, Recorded, Sig, SrvCfg, SrvState, Tok, VetoFilter, SOURCES};
 
 fn base(name: &'static str, alphabet: Vec<Act>, props: &[&'static str]) -> SrvCfg {
     SrvCfg {
@@ -255,15 +255,122 @@ pub fn cfgs_c20() -> Vec<SrvCfg> {
     v
 }
 
+/// Binding of the E2 search to the running system: the wire bytes of one explored history are
+/// replayed against a full threaded node (real actor loop, socket layer, `Core::handle_request`)
+/// on the simulated network, with the same scripted randomness and clock steps; the reply
+/// bodies must be byte-identical to what the `Server`-level search saw.
+pub fn e1_replay(cfg: &SrvCfg, path: &[u16]) -> Result<usize, String> {
+    use crate::explore::Chooser;
+    use crate::sim::{Event, NodeCfg, World};
+    let rec = record_path(cfg.clone(), path);
+    let mut w = World::new(Chooser::default_run());
+    w.default_latency = 0;
+    w.keep_log = false;
+    for i in 0..SOURCES.len() {
+        w.add_endpoint(src_addr(i as u8));
+    }
+    let mut nc = NodeCfg::new([5, 5, 5, 5], 6881).server();
+    nc.rng_script = std::iter::once(rec.node_id.to_vec()).chain(rec.secrets.iter().map(|s| s.to_vec())).collect();
+    let mut settings = dht::ServerSettings {
+        max_info_hashes: cfg.cap_hashes,
+        max_peers_per_info_hash: cfg.cap_peers,
+        max_immutable_values: cfg.cap_values,
+        max_mutable_values: cfg.cap_values,
+        ..Default::default()
+    };
+    if let Some(ip) = cfg.veto_ip {
+        settings.filter = Box::new(VetoFilter { ip });
+    }
+    nc.server_settings = Some(settings);
+    let n = w.add_node(nc);
+    let node_addr = w.node_addr(n);
+    let mut compared = 0usize;
+    for (i, step) in rec.steps.iter().enumerate() {
+        match step {
+            Recorded::Tick(d) => {
+                let t = w.now + d;
+                w.advance_to(t);
+            }
+            Recorded::Exchange { from, request, reply } => {
+                let mut got: Option<Vec<u8>> = None;
+                w.send_raw_with_latency(*from, node_addr, request.clone(), 0);
+                let h = w.now + 2 * crate::sim::MS;
+                let from = *from;
+                w.run_until(h, |_, ev| {
+                    if let Event::EndpointRecv { dgram, .. } = ev {
+                        if dgram.to == from {
+                            got = Some(dgram.bytes.clone());
+                            return true;
+                        }
+                    }
+                    false
+                });
+                let body = |b: &Vec<u8>| -> Option<(Option<crate::bencode::B>, Option<crate::bencode::B>, Option<crate::bencode::B>, Option<crate::bencode::B>)> {
+                    let (t, _) = crate::bencode::decode(b).ok()?;
+                    Some((t.get("y").cloned(), t.get("r").cloned(), t.get("e").cloned(), t.get("t").cloned()))
+                };
+                let same = match (reply, &got) {
+                    (None, None) => true,
+                    (Some(a), Some(b)) => body(a).is_some() && body(a) == body(b),
+                    _ => false,
+                };
+                if !same {
+                    let show = |b: &Option<Vec<u8>>| b.as_ref().map(|b| String::from_utf8_lossy(b).chars().take(160).collect::<String>());
+                    return Err(format!("step {i}: the full node answered {:?}, the Server-level search saw {:?}", show(&got), show(reply)));
+                }
+                compared += 1;
+            }
+        }
+        if w.nodes[n].exited.is_some() {
+            return Err(format!("step {i}: the node's actor thread died"));
+        }
+    }
+    Ok(compared)
+}
+
+/// Replay a selection of the discovered states' shortest paths through full nodes.
+fn bind_paths(cfg: &SrvCfg, paths: &[Vec<u16>], budget: usize, prop: &'static str, out: &mut Partial) {
+    let stride = (paths.len() / budget.max(1)).max(1);
+    for (i, p) in paths.iter().enumerate() {
+        if !(p.len() <= 3 || i % stride == 0) {
+            continue;
+        }
+        match e1_replay(cfg, p) {
+            Ok(n) => {
+                out.add("e1_replays", 1);
+                out.add("e1_replies_compared", n as u64);
+            }
+            Err(e) => {
+                let st = SrvState::new(cfg.clone());
+                out.violation(
+                    format!("{prop}:e1-replay/reply-differs"),
+                    format!("history {:?} replayed through a full threaded node: {e}", st.trace(p)),
+                    json!({"cfg": cfg.name, "path": p, "e1": true}),
+                );
+                return;
+            }
+        }
+    }
+}
+
 pub fn run_cfgs(cfgs: Vec<SrvCfg>, depth: usize, max_states: usize) -> Partial {
+    run_cfgs_bound(cfgs, depth, max_states, 0, "C03")
+}
+
+pub fn run_cfgs_bound(cfgs: Vec<SrvCfg>, depth: usize, max_states: usize, replay_budget: usize, prop: &'static str) -> Partial {
     let mut out = Partial::default();
     for cfg in cfgs {
         let name = cfg.name;
         let n_actions = cfg.alphabet.len();
         let init = SrvState::new(cfg);
-        let bfs = Bfs { max_depth: depth, max_states, threads: super::cores() };
+        let bfs = Bfs { max_depth: depth, max_states, threads: super::cores(), collect_paths: replay_budget > 0 };
         let mut part = Partial::default();
         let stats = bfs.run(vec![init], &mut part);
+        if replay_budget > 0 {
+            if let Some(cfg) = find_cfg(name) {
+                bind_paths(&cfg, &stats.paths, replay_budget, prop, &mut part);
+            }
+        }
         part.notes.push(format!(
             "{name}: alphabet {n_actions}, depth {}, states {}, transitions {}, frontier sizes {:?}{}",
             stats.depth_reached,
@@ -305,6 +412,9 @@ fn replay_srv(v: &Value) -> Result<Option<Violation>, String> {
         .filter_map(|x| x.as_u64().map(|x| x as u16))
         .collect();
     let cfg = find_cfg(name).ok_or("unknown cfg")?;
+    if v.get("e1").and_then(|e| e.as_bool()) == Some(true) {
+        return Ok(e1_replay(&cfg, &path).err().map(|e| Violation { key: "e1-replay/reply-differs".into(), desc: e, replay: v.clone() }));
+    }
     let out = replay_path(cfg, &path);
     Ok(out.violations.into_iter().next())
 }
@@ -329,7 +439,9 @@ pub fn def_c03() -> CheckDef {
         },
         shards: |_| 1,
         run: |tier, _, _, _| {
-            let mut out = with_witnesses(run_cfgs(cfgs_c03(), if tier.is_quick() { 6 } else { 8 }, if tier.is_quick() { 400_000 } else { 3_000_000 }));
+            let mut out = with_witnesses(run_cfgs_bound(cfgs_c03(), if tier.is_quick() { 6 } else { 8 }, if tier.is_quick() { 400_000 } else { 3_000_000 }, if tier.is_quick() { 300 } else { 4000 }, "C03"));
+            let n = out.count("e1_replays");
+            out.witness("paths were replayed through full nodes", n > 0);
             sample(&mut out, cfgs_c03().remove(1), &[0, 0, 4, 11, 0]);
             out
         },
@@ -348,7 +460,9 @@ pub fn def_c04() -> CheckDef {
         },
         shards: |_| 1,
         run: |tier, _, _, _| {
-            let mut out = with_witnesses(run_cfgs(cfgs_c04(), if tier.is_quick() { 6 } else { 12 }, if tier.is_quick() { 400_000 } else { 3_000_000 }));
+            let mut out = with_witnesses(run_cfgs_bound(cfgs_c04(), if tier.is_quick() { 6 } else { 12 }, if tier.is_quick() { 400_000 } else { 3_000_000 }, if tier.is_quick() { 300 } else { 2000 }, "C04"));
+            let n = out.count("e1_replays");
+            out.witness("paths were replayed through full nodes", n > 0);
             sample(&mut out, cfgs_c04().remove(0), &[0, 0, 9, 7, 3]);
             out
         },
@@ -367,7 +481,9 @@ pub fn def_c15() -> CheckDef {
         },
         shards: |_| 1,
         run: |tier, _, _, _| {
-            let mut out = with_witnesses(run_cfgs(cfgs_c15(), if tier.is_quick() { 6 } else { 8 }, if tier.is_quick() { 400_000 } else { 4_000_000 }));
+            let mut out = with_witnesses(run_cfgs_bound(cfgs_c15(), if tier.is_quick() { 6 } else { 8 }, if tier.is_quick() { 400_000 } else { 4_000_000 }, if tier.is_quick() { 300 } else { 4000 }, "C15"));
+            let n = out.count("e1_replays");
+            out.witness("paths were replayed through full nodes", n > 0);
             sample(&mut out, cfgs_c15().remove(0), &[0, 0, 19, 19, 3]);
             out
         },
